@@ -198,12 +198,16 @@ func renderMPD(m mpdSpec) []byte {
 		typ = "dynamic"
 	}
 	typAttr := fmt.Sprintf(` type="%s"`, typ)
-	if m.Kind == "no_type" {
+	if m.Kind == "no_type" || m.Kind == "no_type_no_duration" {
 		typAttr = ""
 	}
+	durAttr := ` mediaPresentationDuration="PT8S"`
+	if m.Kind == "no_duration" || m.Kind == "no_type_no_duration" {
+		durAttr = ""
+	}
 	fmt.Fprintf(&sb, `<?xml version="1.0" encoding="utf-8"?>
-<MPD xmlns="urn:mpeg:dash:schema:mpd:2011" profiles="urn:mpeg:dash:profile:isoff-live:2011" minBufferTime="PT2S"%s mediaPresentationDuration="PT8S">
-`, typAttr)
+<MPD xmlns="urn:mpeg:dash:schema:mpd:2011" profiles="urn:mpeg:dash:profile:isoff-live:2011" minBufferTime="PT2S"%s%s>
+`, typAttr, durAttr)
 	nPeriods := 1
 	if m.Kind == "two_periods" {
 		nPeriods = 2
